@@ -417,8 +417,91 @@ def inv_cells(ctx):
                                      shape, on1, t1, on2, t2, opname, man or "no violation", got or "no violation"))
 
 
+def o_worker():
+    """Runs in a child interpreter (normal / -O / -OO): classes over DBC whose contracts are all enabled=True; prints what
+    the integrator interface shows and how often the registration hook was called."""
+    import json
+    import sys
+
+    core.setup_repo_path()
+    import icontract
+    import icontract._checkers as CK
+    import icontract._metaclass as MC
+
+    seen = []
+    MC._register_for_hypothesis = lambda cls: seen.append(cls.__name__)
+
+    def pre(x):
+        return x > 0
+
+    def post(result):
+        return result > 0
+
+    def inv(self):
+        return self.v >= 0
+
+    @icontract.invariant(inv, "inv", enabled=True)
+    class Base(icontract.DBC):
+        def __init__(self):
+            self.v = 1
+
+        @icontract.require(pre, "pre", enabled=True)
+        @icontract.ensure(post, "post", enabled=True)
+        def m(self, x):
+            return x
+
+    class Derived(Base):
+        def m(self, x):
+            return -x if x > 100 else x
+
+        def fresh(self):
+            self.v = -1
+
+    out = {"hook": seen, "debug": __debug__}
+    ch = CK.find_checker(Derived.m)
+    out["derived_lists"] = None if ch is None else [[[c.description for c in g] for g in ch.__preconditions__],
+                                                    [c.description for c in ch.__postconditions__]]
+    out["derived_invariants"] = [i.description for i in getattr(Derived, "__invariants__", [])]
+    verdicts = {}
+    for label, fn in (("pre-violated", lambda: Derived().m(-1)), ("post-violated", lambda: Derived().m(500)),
+                      ("inv-violated", lambda: Derived().fresh()), ("ok", lambda: Derived().m(5))):
+        try:
+            fn()
+            verdicts[label] = "returned"
+        except icontract.ViolationError as e:
+            verdicts[label] = "violation"
+        except BaseException as e:  # noqa
+            verdicts[label] = type(e).__name__
+    out["verdicts"] = verdicts
+    json.dump(out, sys.stdout)
+
+
+def interpreter_modes(ctx):
+    """Explicitly enabled contracts: the introspection lists, the verdicts and the hook announcements are the same in the
+    normal interpreter and under -O / -OO."""
+    import json
+    import os
+    import subprocess
+    import sys
+
+    want = {"hook": ["Base", "Derived"], "derived_lists": [[["pre"]], ["post"]], "derived_invariants": ["inv"],
+            "verdicts": {"pre-violated": "violation", "post-violated": "violation", "inv-violated": "violation", "ok": "returned"}}
+    for mname, flags in (("normal", []), ("-O", ["-O"]), ("-OO", ["-OO"])):
+        p = subprocess.run([sys.executable, "-B"] + flags + ["-c", "from vf.props import c18; c18.o_worker()"],
+                           capture_output=True, text=True, cwd=core.VERIF_DIR, env=dict(os.environ), timeout=600)
+        if p.returncode != 0:
+            raise core.HarnessError("C18 worker %s failed: %s" % (mname, p.stderr[-2000:]))
+        got = json.loads(p.stdout)
+        for key, exp in want.items():
+            ctx.case(["interpreter-mode", mname, key], mname != "normal", sample={"interpreter": mname, key: got.get(key)})
+            if got.get(key) != exp:
+                ctx.fail("interpreter-mode|%s|%s" % (mname, key), {"interpreter_mode": mname},
+                         "python %s, contracts with enabled=True: %s is %r, expected %r" % (mname, key, got.get(key), exp))
+
+
 def run_once(ctx, tier, seed):
     inv_cells(ctx)
+    interpreter_modes(ctx)
 
 
 def run(ctx, tier, seed, shard, nshards):
@@ -436,6 +519,11 @@ def run(ctx, tier, seed, shard, nshards):
 
 
 def replay(ctx, case):
+    if case.get("interpreter_mode"):
+        before = ctx.evaluations
+        interpreter_modes(ctx)
+        ctx.evaluations = before
+        return
     if case.get("inv_cell"):
         before = ctx.evaluations
         inv_cells(ctx)  # the matrix is small; the failing cell is reported again with the same bucket
